@@ -852,6 +852,16 @@ GEN_FILES = ["C15/GenUtils.v", "C15/Optimizer.v", "C15/OptTree.v", "C15/FoldSoun
              "C15/RetRewriteSound.v", "C15/StmtSound.v", "C15/StmtLabels.v", "C15/JointInst.v", "C15/PropsLower.v"]
 
 
+# session-3 extension: SemW.evalW (with / set / repeat with a fixed binding meaning), conservativity, lowering soundness
+# with with/set.  They import Lower.v / StmtSound.v and so depend on the regenerated GenUtils.v.
+W_FILES = ["C15/SemW.v", "C15/WInst.v", "C15/SemWSound.v", "C15/StmtSoundW.v", "C15/PropsLowerW.v"]
+
+
+def _build_w(ctx):
+    return ctx.coq_build_cached(W_FILES, deps=["C15/Syntax.v", "C15/WordFacts.v", "C15/Bytes.v", "C15/Peephole.v"] + GEN_FILES,
+                                timeout=1200)
+
+
 def _build(ctx):
     """content-keyed build reuse (tools/README-dev.md "Build reuse"): a .vo is reused only if it was produced from
     byte-identical inputs (own source, every earlier file of the list, deps, Base, Coq version)"""
@@ -865,7 +875,8 @@ def _build(ctx):
 def prebuild(ctx):
     """called by setup_cmd: generate and compile once so that the checks reuse the proofs"""
     (COQ / "C15" / "GenUtils.v").write_text(gen_utils())
-    _build(ctx)
+    if _build(ctx)["ok"]:
+        _build_w(ctx)
 
 
 def run(ctx):
@@ -883,6 +894,7 @@ def run(ctx):
     b = _build(ctx) if gen_err is None else {"ok": False}
     model_ok = gen_err is None and (COQ / "C15" / "OptTree.vo").exists() and \
         (b["ok"] or not any(x in b.get("file", "") for x in ("GenUtils", "Optimizer.v", "OptTree.v")))
+    bw = _build_w(ctx) if (gen_err is None and b["ok"]) else None
     T["coq_build"] = round(time.time() - t0, 1); t0 = time.time()
     # ---- observation (always): EVM differential
     found += evm_grid(ctx, differ)
@@ -898,8 +910,19 @@ def run(ctx):
     T["lower_tie"] = round(time.time() - t0, 1); t0 = time.time()
     nreal = real_lower_tie(ctx) if (gen_err is None and (COQ / "C15" / "RetRewrite.vo").exists()) else 0
     T["real_lower"] = round(time.time() - t0, 1); t0 = time.time()
+    # semantics tie of SemW.evalW (with / set / repeat / break / continue) against compile_ir + pyrevm; it is also the
+    # Search when the with/set lowering proof breaks (a mismatch is printed with the IR, the calldata and both results)
+    nsemw = 0
+    semw_ok = bw is not None and (COQ / "C15" / "WInst.vo").exists() and \
+        (bw["ok"] or not any(x in bw.get("file", "") for x in ("SemW.v", "WInst.v")))
+    if semw_ok:
+        from vlib import c15_semw
+        nviol = len(ctx.violations)
+        nsemw = c15_semw.run(ctx)
+        found += int(len(ctx.violations) > nviol)
+    T["semw_tie"] = round(time.time() - t0, 1); t0 = time.time()
     # ---- tie
-    n = gcalls + nsem + nlow + nreal
+    n = gcalls + nsem + nlow + nreal + nsemw
     if model_ok:
         n2, f = binop_grid_tie(ctx, differ)
         n += n2
@@ -921,6 +944,9 @@ def run(ctx):
     elif gen_err is None and not b["ok"] and not found:
         ctx.violation("theorem-broken", f"{b.get('failed_lemma')} in {b['file']}",
                       {"theorem": b.get("failed_lemma"), "file": b["file"], "coq_output": b["out"][-1500:]})
+    if bw is not None and not bw["ok"] and not found:
+        ctx.violation("theorem-broken", f"{bw.get('failed_lemma')} in {bw['file']}",
+                      {"theorem": bw.get("failed_lemma"), "file": bw["file"], "coq_output": bw["out"][-1500:]})
     for irl, msg in grid_panics[:3]:
         ctx.violation("correspondence-broken", "optimizer raised on a legal IR snippet", {"ir": repr(irl), "error": msg})
     ctx.corr["evm_programs"] = differ.programs
